@@ -258,7 +258,7 @@ def write_evidence(prop, tier, seed, main, planted, extra, pre, known, violation
         pass
     cov = {
         'obligations': proof_ob, 'discharged': proof_dis,
-        'checker_cmd': 'goto-cc --function vf_harness unit.c; goto-instrument --dfcc vf_harness --enforce-contract <f> [--replace-call-with-contract g] [--apply-loop-contracts]; cbmc --bounds-check --pointer-check --pointer-overflow-check --div-by-zero-check --signed-overflow-check --undefined-shift-check --pointer-primitive-check --sat-solver cadical --json-ui',
+        'checker_cmd': 'goto-cc --function vf_harness unit.c; goto-instrument --dfcc vf_harness --enforce-contract <f> [--replace-call-with-contract g] [--apply-loop-contracts]; cbmc --bounds-check --pointer-check --pointer-overflow-check --div-by-zero-check --signed-overflow-check --undefined-shift-check --pointer-primitive-check --unwind <unit bound or 100> --unwinding-assertions --sat-solver cadical --json-ui',
         'trusted_base': sorted(trusted),
         'bounded': bounded,
         'functions_under_contract': sorted(functions),
